@@ -38,7 +38,11 @@ RULE = ('generated modules (2-4 doctests; statements: bind/print/increment/probe
         'come back unmodified): record of every step (ending, '
         'passed/failed/skipped, failure kind/part/line, skipped and executed parts, logged stdout per part, start run state, '
         'persisted namespace, module globals, REQUIRES set of DEFAULT_RUNTIME_STATE) compared with the model AND with the doctest run '
-        'alone in a fresh process; the same modules twice through runner.doctest_module. non-trivial = history of >= 2 steps; '
+        'alone in a fresh process; the same modules twice through runner.doctest_module; REQUIRES(module:…) directives (block, inline, '
+        'negative) over a package generated per case with existing and missing submodules and a missing package, in every order of '
+        'first lookup (process-wide _MODNAME_EXISTS_CACHE); TEXT FILES through the pytest plugin (one pytest subprocess per batch, '
+        '--xdoctest-glob, google style: several Example blocks per file in generated orders/repetitions, each doctest compared with '
+        'the same block alone in its own file). non-trivial = history of >= 2 steps; '
         'distinct = distinct (module source, history)')
 ASSUMPTIONS = ['executing doctest code depends only on the namespace it is given (validated by the fresh-process oracle on every step)',
                'exceptions raised by exec/eval of a part always have a traceback frame of the doctest']
@@ -92,6 +96,11 @@ def check_case(docs, history, mode, tmpdir, want_model=False, unrestricted=False
     case = ci.Case(docs, tmpdir)
     res = {'failures': [], 'records': [], 'model_line': None, 'source': case.source}
     history = [(int(i), oe) for i, oe in history]
+    # the oracle first: every doctest alone, in children forked BEFORE the history runs, so that they inherit nothing
+    # the history may leave in this process (the names of a case were never seen by the process before)
+    alone = {}
+    for i in (range(len(docs)) if mode == 'runner' else sorted(set(i for i, _ in history))):
+        alone[i] = ci.run_alone(case, i, defaults)
     if mode == 'runner':
         seen, errors, cfgs = ci.run_module_runner(case, times=2, defaults=defaults)
         recs = [r for _, r in seen]
@@ -113,7 +122,6 @@ def check_case(docs, history, mode, tmpdir, want_model=False, unrestricted=False
     res['history'] = history
     if want_model:
         res['model_line'] = ci.model_line(case, exs, history, defaults)
-    alone = {}
     stale = set()      # objects whose last run ended by propagating (K-C11-a predicate) — direct mode only
     mod0 = 'mod=' + ci._fmt_ns(dict(gi.MODGLOBALS))
     for k, ((i, oe), rec) in enumerate(zip(history, recs)):
@@ -147,6 +155,33 @@ def check_case(docs, history, mode, tmpdir, want_model=False, unrestricted=False
     return res
 
 
+def _gen_text(rng):
+    docs = [gi.gen_text_doc(rng, k) for k in range(rng.randint(2, 4))]
+    order = [rng.randrange(len(docs)) for _ in range(rng.randint(2, 6))]
+    return docs, order
+
+
+def _text_hit(docs, order, d, tag):
+    """oracle on one text-file input (two pytest subprocesses); a shrunk hit or None"""
+    r = ci.check_textfiles([(docs, order)], d, tag)[0]
+    if not r['failures']:
+        return None
+    cur = list(order)
+    n = 0
+    changed = True
+    while changed and len(cur) > 1 and n < 6:
+        changed = False
+        for k in range(len(cur) - 1, -1, -1):
+            c2 = cur[:k] + cur[k + 1:]
+            n += 1
+            r2 = ci.check_textfiles([(docs, c2)], d, '%s_s%d' % (tag, n))[0]
+            if r2['failures']:
+                cur, r, changed = c2, r2, True
+                break
+    return {'kind': 'textfile', 'input': {'docs': docs, 'order': cur, 'mode': 'textfile'}, 'text_file': r['text'],
+            'failure': r['failures'][0], 'records': r['records']}
+
+
 def _gen(rng, quick):
     docs = gi.gen_case(rng)
     rp = 0.3 if rng.random() < 0.25 else 0.0
@@ -154,8 +189,31 @@ def _gen(rng, quick):
     return docs, history, gi.gen_defaults(rng)
 
 
+TEXT_SHARDS = 4
+
+
 def _shard(args):
     seed, shard, count, runner_count = args
+    if shard >= 100:
+        # text files through the pytest plugin: expectation only (each doctest vs the same doctest alone in its own file)
+        rng = random.Random('c11t:%d:%d' % (seed, shard))
+        out = {'n': 0, 'nontriv': set(), 'tags': {}, 'dis': [], 'exp': [], 'samples': [], 'unknown': 0}
+        cases = [_gen_text(rng) for _ in range(count)]
+        with ci.scratch() as d:
+            res = ci.check_textfiles(cases, d, 'tb%d' % shard)
+        for (docs, order), r in zip(cases, res):
+            out['n'] += len(r['records'])
+            out['nontriv'].add(hash(r['text']))
+            for rec in r['records']:
+                t = 'textfile:' + rec.split(' ', 1)[0]
+                out['tags'][t] = out['tags'].get(t, 0) + 1
+            for f in r['failures']:
+                out['exp'].append({'input': {'docs': docs, 'order': order, 'mode': 'textfile'}, 'expected': f.get('expected'),
+                                   'impl': f.get('observed'), 'why': '%s (doctest #%s of the file)' % (f['what'], f.get('step'))})
+        if res:
+            out['samples'].append({'op': 'pytest --xdoctest-glob=*.txt --xdoctest-style=google', 'text_file': res[0]['text'],
+                                   'records': res[0]['records']})
+        return out
     rng = random.Random('c11:%d:%d' % (seed, shard))
     out = {'n': 0, 'nontriv': set(), 'tags': {}, 'dis': [], 'exp': [], 'samples': [], 'unknown': 0}
 
@@ -210,7 +268,9 @@ def _shard(args):
 def correspondence(ctx, corr):
     count = 120 if ctx.quick else 1500
     rc = 10 if ctx.quick else 120
-    res = par.pmap(_shard, [(ctx.seed, s, count, rc) for s in range(16)])
+    tc = 25 if ctx.quick else 300
+    jobs = [(ctx.seed, s, count, rc) for s in range(16)] + [(ctx.seed, 100 + s, tc, 0) for s in range(TEXT_SHARDS)]
+    res = par.pmap(_shard, jobs, jobs=len(jobs))
     for r in res:
         corr.count('history', r['n'])
         corr.nontrivial |= r['nontriv']
@@ -281,6 +341,17 @@ def _search_shard(args):
     seed, shard, count = args
     rng = random.Random('c11s:%d:%d' % (seed, shard))
     hits = []
+    if shard >= 100:
+        cases = [_gen_text(rng) for _ in range(40)]
+        with ci.scratch() as d:
+            res = ci.check_textfiles(cases, d, 'ts%d' % shard)
+            for k, ((docs, order), r) in enumerate(zip(cases, res)):
+                if r['failures']:
+                    h = _text_hit(docs, order, d, 'th%d_%d' % (shard, k))
+                    if h:
+                        hits.append(h)
+                        break
+        return hits
     buf = io.StringIO()
     with ci.scratch() as d, contextlib.redirect_stdout(buf):
         for t in range(count):
@@ -306,10 +377,16 @@ def search(ctx, corr, broken):
                 inp = src['input']
                 if 'docs' not in inp:
                     continue
+                if inp.get('mode') == 'textfile':
+                    if not any(x.get('kind') == 'textfile' for x in hits):
+                        h = _text_hit(inp['docs'], inp['order'], d, 'tx%d' % len(hits))
+                        if h:
+                            hits.append(h)
+                    continue
                 h = _hit_of(inp['docs'], inp['history'], inp.get('mode', 'direct'), inp.get('defaults'), d)
                 if h:
                     hits.append(h)
-    res = par.pmap(_search_shard, [(ctx.seed, s, 60) for s in range(16)])
+    res = par.pmap(_search_shard, [(ctx.seed, s, 60) for s in range(16)] + [(ctx.seed, 100 + s, 0) for s in range(2)], jobs=18)
     for r in res:
         hits.extend(r)
     with ci.scratch() as d:
@@ -343,12 +420,15 @@ def _is_k_c11_a(inp, tmpdir):
         for e in exs:
             e.config['default_runtime_state'] = cfg
     ok = True
+    alone = {int(i): ci.run_alone(case, int(i), defaults) for i, _ in inp['history']}
     with ci.ProcState():
+        import sys
+        sys.path.insert(0, case.tmpdir)
         buf = io.StringIO()
         with contextlib.redirect_stdout(buf):
             for i, oe in inp['history']:
                 rec = ci.observe_run(case, exs[int(i)], oe)
-                exp = ci.run_alone(case, int(i), defaults)
+                exp = alone[int(i)]
                 a, b = ci.outcome_of(rec), ci.outcome_of(exp)
                 if oe == 'e':
                     a, b = _strip_ending(a), _strip_ending(b)
@@ -362,7 +442,7 @@ def _is_k_c11_a(inp, tmpdir):
 
 def classify(ctx, hit):
     inp = hit.get('input') or {}
-    if 'docs' not in inp:
+    if 'docs' not in inp or inp.get('mode') == 'textfile':
         return None
     with ci.scratch() as d:
         buf = io.StringIO()
@@ -394,6 +474,18 @@ def replay(ctx, failing):
         print('module:\n%s\nrunner.doctest_module(..., config=%s)' % (inp['module'], inp['config']))
         print('observed now: %s' % (h['failure']['observed'] if h else 'n_passed=1, the set stays empty'))
         return h is not None
+    if inp.get('mode') == 'textfile':
+        with ci.scratch() as d:
+            r = ci.check_textfiles([(inp['docs'], inp['order'])], d, 'replay')[0]
+        print('text file collected by pytest (--xdoctest-glob=*.txt --xdoctest-style=google):\n' + r['text'])
+        for k, rec in enumerate(r['records']):
+            print('  doctest #%d: %s' % (k, rec))
+        for f in r['failures']:
+            print('FAILS: %s: doctest #%s (block %s)\n   observed: %s\n   alone   : %s' % (
+                f['what'], f.get('step'), f.get('doc'), f.get('observed'), f.get('expected')))
+        if not r['failures']:
+            print('every doctest of the file behaves as it does alone in its own file')
+        return bool(r['failures'])
     with ci.scratch() as d:
         buf = io.StringIO()
         with contextlib.redirect_stdout(buf):
